@@ -264,7 +264,7 @@ class Replayer(object):
             self.nmism += 1
             if len(self.mism) < 4000:
                 self.mism.append((ev, form))
-        elif self.n % 23 == 0 or ev["hasBase"]:
+        elif self.n % 23 == 0 or (ev["hasBase"] and self.n % 5 == 0):
             if len(self.sampled) < 6000:
                 self.sampled.append((ev, form))
         if self.first is None and nsw >= 2:
@@ -339,11 +339,13 @@ def rand_line(rng):
 # ---------------------------------------------------------------------------------- check
 Q = "quick"
 MODEL_RUNS = {
-    Q: [("MC_Switches_quick_pairs.cfg", "two-switches", 5000), ("MC_Switches_quick_combos.cfg", "one-switch-all-handlers-streams", 3000),
-        ("MC_Switches_quick_pairs2.cfg", "two-switches-raise-ansi", 2000)],
-    "thorough": [("MC_Switches_quick_combos.cfg", "one-switch-all-handlers-streams", 3000),
+    Q: [("MC_Switches_quick_pairs.cfg", "two-switches", 5000), ("MC_Switches_quick_combos.cfg", "one-switch-all-streams-ok-code", 5000),
+        ("MC_Switches_quick_raise.cfg", "two-switches-raising-handler", 400)],
+    "thorough": [("MC_Switches_quick_combos.cfg", "one-switch-all-streams-ok-code", 5000),
+                 ("MC_Switches_quick_pairs2.cfg", "two-switches-ansi-streams", 2000),
                  ("MC_Switches_thorough_pairs.cfg", "two-switches-all-bases", 50000),
-                 ("MC_Switches_thorough_triples.cfg", "three-switches", 20000)],
+                 ("MC_Switches_thorough_raise.cfg", "two-switches-raising-handler", 10000),
+                 ("MC_Switches_thorough_triples.cfg", "three-switches", 200000)],
 }
 
 
@@ -408,7 +410,7 @@ def _run(ctx, quick):
     n = 3000 if quick else 40000
     for k in range(n):
         units = rand_line(rng)
-        beh = rng.choice(["ok", "ok", "ok", "code", "raise"])
+        beh = rng.choice(["ok"] * 7 + ["code"] * 4 + ["raise"])  # a raising run costs ~12 ms (the error report)
         kind = rng.choice(["none", "none", "both", "out"])
         form = rng.choice(["string", "argv"])
         ev = event(units, beh, kind, form)
